@@ -115,4 +115,83 @@ def run(chk, facts_dir, tier):
         else:
             chk.fail("R14.3", TM + "get_available_replicas", "sort-not-total", "the replicas are ordered by %s: replicas with equal alive_since (second resolution) keep their stored order, "
                      "which depends on the path by which a node learned them, so two nodes with the same view pick different coordinators" % desc, b, t["line"])
+    # ---------------- R14.4 membership change => replica sets recomputed
+    chk.rule("R14.4", "MEMBERSHIP AND REPLICA SETS MOVE TOGETHER: every function of TopologyManager that inserts into or removes from active_nodes reaches "
+                      "recalculate_partition_assignments on every path from that mutation to its return (a flag that is set to true right after the mutation and tested "
+                      "before the recalculation is followed); otherwise a node knows a live member that owns no replica on it, and its replica sets differ from its peers'")
+    RECALC = TM + "recalculate_partition_assignments"
+    ALLOW4 = {TM + "handle_ownership_response": "replaces membership and replica sets together with a peer's snapshot"}
+    MUT = ("insert", "remove", "retain", "clear", "extend", "drain", "remove_entry")
+    n4 = 0
+    for p, b in sorted(prog.bodies.items()):
+        root = b.root or b.path
+        if not root.startswith(TM) or root == RECALC:
+            continue
+        ev = None
+        muts = []
+        for bi, t in b.calls():
+            c = b.callee_decl(t) or ""
+            if "HashMap" in c and c.rsplit("::", 1)[-1] in MUT and t["args"]:
+                ev = ev or Ev(prog, b)
+                recv = ev.operand(t["args"][0], (bi, "T"))
+                if any(isinstance(x, tuple) and x and x[0] == "field" and x[2] == "active_nodes" and "TopologyManager" in str(x[3]) for x in walk(recv)):
+                    muts.append((bi, t))
+        if not muts:
+            continue
+        chk.analysed(p)
+        if root in ALLOW4:
+            chk.ok("R14.4", "%s: allow-listed (%s)" % (root.rsplit("::", 1)[-1], ALLOW4[root]), b.where(muts[0][1]["line"]))
+            continue
+        rec = frozenset(bi for bi, t in b.calls() if (b.callee_decl(t) or "") == RECALC or (b.callee(t) or "") == RECALC)
+        rets = b.return_blocks()
+        for mb, mt in muts:
+            n4 += 1
+            start = mb
+            if (b.callee_decl(mt) or "").rsplit("::", 1)[-1] in ("remove", "remove_entry"):
+                # `if let Some(..) = map.remove(k)`: the membership only changed on the Some edge
+                from ..util import discr_switches
+                for sb, place, targets, otherwise in discr_switches(b):
+                    if not place["p"] and place["l"] == mt["dest"]["l"] and b.dominates(mb, sb) and targets.get("1") is not None:
+                        start = targets["1"]
+            dead = _infeasible_false_edges(b, start)
+            r = (b.reach_after([start], avoid=rec, avoid_edges=frozenset(dead)) | {start}) if start not in rec else set()
+            bad = [x for x in rets if x in r]
+            if bad or not rec:
+                chk.fail("R14.4", root, "membership-without-recalculation", "active_nodes is changed (L%s) and the function can return without recalculate_partition_assignments: the replica "
+                         "sets no longer follow the live membership" % mt.get("line"), b, mt["line"])
+            else:
+                chk.ok("R14.4", "%s: membership change at L%s always reaches the recalculation" % (root.rsplit("::", 1)[-1], mt.get("line")), b.where(mt["line"]))
+    chk.floor("R14.4", n4, 4)
     return {}
+
+
+def _infeasible_false_edges(body, mblock):
+    """edges (switch block -> false target) on a bool flag that was set to `true` on every path from the mutation block to that switch
+    and is never set back to false afterwards: after the mutation the flag test cannot take its false edge"""
+    from ..gate import switch_on
+    out = []
+    after = body.reach_after([mblock]) | {mblock}
+    for L, defs in body.defs.items():
+        ds = [d for d in defs if not d[2]["p"]]
+        if len(ds) < 2 or body.local_ty(L).strip() != "bool":
+            continue
+        trues = [d for d in ds if d[3].get("k") == "use" and "c" in d[3]["op"] and "true" in str(d[3]["op"].get("c"))]
+        falses = [d for d in ds if d[3].get("k") == "use" and "c" in d[3]["op"] and "false" in str(d[3]["op"].get("c"))]
+        if len(trues) + len(falses) != len(ds) or not trues:
+            continue
+        tblocks = frozenset(d[0] for d in trues if d[0] in after)
+        if not tblocks:
+            continue
+        # no `flag = false` after a `flag = true`
+        if any(f[0] in body.reach_after(list(tblocks)) for f in falses):
+            continue
+        for sb, blk in enumerate(body.blocks):
+            if blk["t"]["k"] != "switch" or sb not in after:
+                continue
+            sw = switch_on(body, sb, L)
+            if not sw:
+                continue
+            # every path from the mutation to this switch passes a `flag = true`
+            if sb not in body.reach_after([mblock], avoid=tblocks) or sb in tblocks:
+                out.append((sb, sw[1]))
+    return out
